@@ -245,6 +245,17 @@ func (b *docBuilder) selSet(def *ast.Definition, depth int, top bool) string {
 				}
 			}
 			parts = append(parts, sel)
+			if (ft.Kind == ast.Object || ft.Kind == ast.Interface || ft.Kind == ast.Union) && depth > 0 && r.Below(4) == 0 {
+				// the same response key once more with a different sub-selection - directly, or under a type
+				// condition that applies: the two sub-selections are merged by field collection (on every
+				// list element's goroutine, over the one parsed document)
+				again := alias + f.Name + " " + b.selSet(ft, depth-1, false)
+				if r.Bool() {
+					conds := b.typeConds(def)
+					again = "... on " + conds[r.Below(len(conds))] + " { " + again + " }"
+				}
+				parts = append(parts, again)
+			}
 		}
 	}
 	return "{ " + strings.Join(parts, " ") + " }"
